@@ -277,7 +277,7 @@ class Array:
         argv = [self.bin, "-c", conf or self.conf_path()] + (base_flags if base_flags is not None else self.BASE_FLAGS)
         if hashflag and self.conf.hash_kind in ("murmur3", "spooky2"):
             argv.append("--test-force-" + self.conf.hash_kind)
-        if getattr(self.conf, "inomode", False) and "--test-fake-uuid" not in [str(x) for x in args]:
+        if getattr(self.conf, "inomode", False) and not getattr(self, "nouuid", False) and "--test-fake-uuid" not in [str(x) for x in args]:
             # --force-uuid: a change of the UUIDs (data lines reordered) is accepted; that interlock is not the subject here
             argv += ["--test-fake-uuid", "--force-uuid"]
         # the depth of the I/O ring does not change any result (C13): vary it from command to command
